@@ -238,7 +238,7 @@ func loadSearches(prop string, limited bool) func(p *run.Part, tier string) []*s
 			ss = append(ss, mk(CfgFww3, "", 4))
 		}
 		em := mk(CfgDef3, "", 4)
-		em.Alphabet = WithEmpty(Alphabet(3, false))
+		em.Alphabet = append(WithEmpty(Alphabet(3, false)), seqx.Op{K: "appbin", A: 2}) // empty and binary payloads
 		ss = append(ss, em)
 		if !limited {
 			ss = append(ss, mk(CfgDef3, "+fork12", 1), mk(CfgDef3, "+chain20", 1))
